@@ -32,7 +32,7 @@ func errResultMayBeNonNil(r *ssa.Return) bool {
 		return false
 	}
 	last := rv[len(rv)-1]
-	if last.Type().String() != "error" {
+	if TStr(last.Type()) != "error" {
 		return false
 	}
 	return !IsNilConst(Strip(last))
@@ -882,7 +882,7 @@ func checkC19(c *Ctx) {
 		seqs, trunc := ConcPaths(ne, ConcCfg{
 			Event: func(in ssa.Instruction, st *ConcState) string {
 				if l, ok := in.(*ssa.Lookup); ok {
-					if mt, isM := types.Unalias(l.X.Type()).Underlying().(*types.Map); isM && strings.Contains(types.Unalias(mt.Elem()).Underlying().String(), "EncoderConfig") {
+					if mt, isM := types.Unalias(l.X.Type()).Underlying().(*types.Map); isM && strings.Contains(TStr(types.Unalias(mt.Elem()).Underlying()), "EncoderConfig") {
 						return "lookup"
 					}
 				}
@@ -1307,8 +1307,8 @@ func c19FileOpen(c *Ctx, rule string) {
 		if !ok || sig.Params().Len() != 3 || sig.Results().Len() != 2 {
 			return false
 		}
-		return sig.Params().At(0).Type().String() == "string" && sig.Results().At(0).Type().String() == "*os.File" &&
-			strings.HasSuffix(sig.Params().At(2).Type().String(), "FileMode")
+		return TStr(sig.Params().At(0).Type()) == "string" && TStr(sig.Results().At(0).Type()) == "*os.File" &&
+			strings.HasSuffix(TStr(sig.Params().At(2).Type()), "FileMode")
 	}
 	seqs, trunc := ConcPaths(fn, ConcCfg{
 		Event: func(in ssa.Instruction, st *ConcState) string {
